@@ -59,11 +59,14 @@ class SearchTerms:
                     safe_term = "{0}{1}{0}".format(delim, self.term)
                     break
         else:
-            # Replace unescaped spaces and search operator symbols with
-            # escaped ones; a term which was demarcated by quotes would
-            # otherwise re-parse as a different search expression.
+            # Replace unescaped spaces, search operator symbols, and quotes
+            # with escaped ones; a term which was demarcated by quotes would
+            # otherwise re-parse as a different search expression (a bare
+            # quote would demarcate the term anew).
             safe_term = self.term
-            for symbol in [" ", "=", "^", "$", "%", "!", ">", "<", "~"]:
+            for symbol in [
+                " ", "=", "^", "$", "%", "!", ">", "<", "~", "'", '"'
+            ]:
                 escaped_symbol = "\\" + symbol
                 safe_term = escaped_symbol.join([
                     ele.replace(symbol, escaped_symbol)
